@@ -26,17 +26,31 @@ type wOpts struct {
 	codec                   string
 	v1, sid, dup, whole, z  bool
 	mcs                     uint64
+	ms, mh                  uint64 // read-side limits (0 = not set: library defaults)
 }
 
 func (o wOpts) String() string {
-	return fmt.Sprintf("dp=%d ip=%d codec=%s v1=%d sid=%d dup=%d whole=%d mcs=%d z=%d", o.dp, o.ip, o.codec,
+	s := fmt.Sprintf("dp=%d ip=%d codec=%s v1=%d sid=%d dup=%d whole=%d mcs=%d z=%d", o.dp, o.ip, o.codec,
 		b2i(o.v1), b2i(o.sid), b2i(o.dup), b2i(o.whole), o.mcs, b2i(o.z))
+	if o.ms != 0 {
+		s += fmt.Sprintf(" ms=%d", o.ms)
+	}
+	if o.mh != 0 {
+		s += fmt.Sprintf(" mh=%d", o.mh)
+	}
+	return s
 }
 
 func (o wOpts) opts() []carv2.Option {
 	out := []carv2.Option{carv2.UseDataPadding(o.dp), carv2.UseIndexPadding(o.ip), carv2.WriteAsCarV1(o.v1),
 		carv2.StoreIdentityCIDs(o.sid), carv2.AllowDuplicatePuts(o.dup), carv2.UseWholeCIDs(o.whole),
 		carv2.MaxIndexCidSize(o.mcs), carv2.ZeroLengthSectionAsEOF(o.z)}
+	if o.ms != 0 {
+		out = append(out, carv2.MaxAllowedSectionSize(o.ms))
+	}
+	if o.mh != 0 {
+		out = append(out, carv2.MaxAllowedHeaderSize(o.mh))
+	}
 	switch o.codec {
 	case "sorted":
 		out = append(out, carv2.UseIndexCodec(multicodec.CarIndexSorted))
@@ -56,6 +70,11 @@ func (g *Gen) wOpts() wOpts {
 	o.whole = g.pick(3) == 0
 	if g.pick(4) == 0 {
 		o.mcs = uint64(36 + g.pick(30))
+	}
+	if g.pick(6) == 0 {
+		// small read-side limits on a writing session: they bound what a READER of foreign data accepts;
+		// what the session itself wrote it must keep serving and reopening
+		o.ms = uint64(40 + g.pick(120))
 	}
 	return o
 }
